@@ -285,6 +285,31 @@ extern "C" void c09_shared_inputs(unsigned form) {
   vp_reach("c09 shared inputs");
 }
 
+// ---- C20: WhenAll / WhenAny / Join on plain futures allocate a number of blocks that does not depend on the number of inputs
+template <int Comb, std::size_t N>
+static unsigned long CombAllocs() {
+  Future<int> fs[N]; Promise<int> ps[N];
+  for (std::size_t i = 0; i < N; ++i) { auto [f, p] = MakeContract<int>(); fs[i] = std::move(f); ps[i] = std::move(p); }
+  unsigned long a0 = vp_alloc_count();
+  if constexpr (Comb == 0) WhenAny(static_cast<Future<int>*>(fs), N).DetachInline([](Result<int>&&) noexcept {});
+  else if constexpr (Comb == 1) WhenAll(static_cast<Future<int>*>(fs), N).DetachInline([](Result<std::vector<int>>&&) noexcept {});
+  else Join(static_cast<Future<int>*>(fs), N).DetachInline([](Result<>&&) noexcept {});
+  for (std::size_t i = 0; i < N; ++i) std::move(ps[i]).Set((int)i);
+  unsigned long n = vp_alloc_count() - a0;
+  if constexpr (Comb == 0) vp_assert(vp_live_count() == 0, "C03 something is still alive after WhenAny completed and every input was set");
+  else if constexpr (Comb == 1) vp_assert(vp_live_count() == 0, "C03 something is still alive after WhenAll completed");
+  else vp_assert(vp_live_count() == 0, "C03 something is still alive after Join completed");
+  return n;
+}
+extern "C" void c20_when_allocs(unsigned comb) {   // one combinator per query: the bump arenas of the encoding are small
+  unsigned long a2 = 0, a3 = 0;
+  if (comb == 0) { a2 = CombAllocs<0, 2>(); a3 = CombAllocs<0, 3>(); }
+  else if (comb == 1) { a2 = CombAllocs<1, 2>(); a3 = CombAllocs<1, 3>(); }
+  else { a2 = CombAllocs<2, 2>(); a3 = CombAllocs<2, 3>(); }
+  vp_assert(a2 == a3 && a2 <= 5, "C20 a combinator over plain futures (dynamic form) allocates a number of blocks that depends on the number of inputs");
+  vp_reach("c20 when allocs");
+}
+
 // ---- three inputs, sequential completion orders (WhenAny static form): value -> failure -> value patterns need n >= 3
 template <FailPolicy P>
 static void Any3(unsigned k0, unsigned k1, unsigned k2, unsigned order) {
